@@ -564,6 +564,17 @@ fn gen_seg(out: &mut impl Write, tier: &str, rng: &mut Rng, part: &str, chunk: u
             }
         }
     }
+    // every tag-text-tag triple (both cuts meet on one text); thorough covers it in the full box
+    if !thorough {
+        let gs: Vec<&String> = tags.iter().chain(raws_tiny.iter()).collect();
+        for a in &gs {
+            for t in &texts {
+                for b in &gs {
+                    seqs.push(format!("{};{};{}", a, t, b));
+                }
+            }
+        }
+    }
     // raw: inner text alphabet x inner markers already in raws_full; outer texts x outer markers
     for a in &texts {
         for g in &raws_full {
